@@ -651,7 +651,11 @@ def op_emplace(front):
         add('RB.2', ok, f'{label} {rt}: size\' = {want_size}', site, '' if ok else f'size becomes {size1}, expected {want_size}', key=f'RB.2|emplace_{key}|size')
         ok = len(es) == 1 and es[0][1][1] == want_kind
         why = ''
-        if not ok: why = f'{[e[1][1] for e in es]} on the {"full" if full else "non-full"} path; expected exactly one {want_kind}: ' + ('placement-new over a live element abandons it without destruction' if full else 'assignment to raw storage runs operator= on an object that was never constructed')
+        if not ok:
+            kinds_ = [e[1][1] for e in es]
+            why = f'{kinds_} on the {"full" if full else "non-full"} path; expected exactly one {want_kind}: ' + \
+                  ('the discarded element is destroyed before the new one is built from the arguments: pushing (a reference to) that very element — the natural way to rotate a full ring — reads a destroyed object' if full and kinds_ == ['destroy', 'construct'] else
+                   'placement-new over a live element abandons it without destruction' if full else 'assignment to raw storage runs operator= on an object that was never constructed')
         add('RB.7', ok, f'{label} {rt}: exactly one {want_kind} of a slot', es[0][0].shortloc() if es else site, why, key=f'RB.7|emplace_{key}|kind')
         if es:
             inn, kind = slot_inner(ctx, es[0][1][2])
